@@ -1016,7 +1016,12 @@ func (p *partition) handleReplicationRequest(msg *nats.Msg) {
 	}
 	replicator, ok := p.replicators[req.ReplicaID]
 	if !ok {
-		panic(fmt.Sprintf("No replicator for partition %s and replica %s", p, req.ReplicaID))
+		// There is no replicator for this replica, e.g. because the request
+		// names the leader itself or this server is not leading. Drop the
+		// request instead of crashing on a payload any NATS client can send.
+		p.srv.logger.Warnf("Received replication request for partition %s from replica %s "+
+			"which has no replicator", p, req.ReplicaID)
+		return
 	}
 	replicator.request(replicationRequest{req, msg, received})
 }
